@@ -670,6 +670,23 @@ fn history<Ty: EdgeType + Flip, Ix: IndexType>(cx: &mut Cx, rng: &mut Rng, ixnam
                         *y = w4;
                         st.m.nodes[a] = Some(w3);
                         st.m.edges[e].as_mut().unwrap().w = w4;
+                        // two edge indices: distinct ones are fine, equal ones must panic (documented) and change nothing
+                        let e2 = if rng.chance(1, 3) { e } else { rng.below(me) };
+                        let (w5, w6) = (st.m.fresh_w(), st.m.fresh_w());
+                        cx.log(|| format!("   index_twice_mut(edge {}, edge {})", e, e2));
+                        let r = catch(|| {
+                            let (x, y) = st.g.index_twice_mut(EdgeIndex::<Ix>::new(e), EdgeIndex::<Ix>::new(e2));
+                            *x = w5;
+                            *y = w6;
+                        });
+                        match r {
+                            Ok(()) => {
+                                cx.ensure(e != e2, "Graph:index_twice_mut-same-edge-index-no-panic", || format!("index_twice_mut(edge {}, edge {}) handed out two references to one weight", e, e2))?;
+                                st.m.edges[e].as_mut().unwrap().w = w5;
+                                st.m.edges[e2].as_mut().unwrap().w = w6;
+                            }
+                            Err(p) => cx.ensure(e == e2, "Graph:index_twice_mut-unexpected-panic", || format!("(edge {}, edge {}) panicked: {}", e, e2, p.short()))?,
+                        }
                     }
                 }
             }
